@@ -10,6 +10,8 @@ the database in a scripted order:
   D  a worker reports the completion of some job twice / late (duplicate of the last report)
   F  fault: the instance with most running jobs is deactivated (real Instance.deactivate) and replaced by a fresh active one
   C<g>  the client cancels job group g (real cancel_job_group_in_db)
+  X  a second attempt id of a Running job reports job_started from another instance (real mark_job_started): an orphan attempt for loop O
+  L  late canceller message: real driver.job.unschedule_job for the attempt whose completion was reported last
 
 then the system is run to quiescence fairly (rounds of S, R, U, O and workers finishing every Running job successfully) and the
 liveness part of the property is read off the tables.  Safety (single current attempt) is checked after every actor step.
@@ -70,6 +72,7 @@ class Actors:
         self.log: List[str] = []
         self.next_inst = 50
         self.last_complete: Optional[Tuple] = None
+        self.n_orphans = 0
         self.errors: List[str] = []
 
     def view(self) -> View:
@@ -129,6 +132,30 @@ class Actors:
                 w.apply(f'activate {self.next_inst}')
         elif k == 'C':
             w.apply(f'cancel {a[1:]}')
+        elif k == 'X':
+            # a second attempt of a Running job reports job_started (schedule_job posted the job to a worker, its procedure call was lost and
+            # the job was scheduled again): the real mark_job_started records it as a non-current attempt = an orphan for loop O
+            rj = self.running_jobs()
+            live = [i for i in w.instances.values() if i.state == 'active']
+            if rj and live:
+                j = self.rng.choice(rj)
+                cur = [x['instance_name'] for x in w.db.tables['attempts'] if (x['batch_id'], x['job_id'], x['attempt_id']) ==
+                       (j['batch_id'], j['job_id'], j['attempt_id'])]
+                other = [i for i in live if i.name not in cur] or live
+                self.n_orphans += 1
+                w.run(self._safe('job_started(orphan)', w.dj.mark_job_started(w.app, j['batch_id'], j['job_id'], f'orphan{self.n_orphans}',
+                                                                           self.rng.choice(other), self.ts - 5, [])))
+        elif k == 'L':
+            # the canceller selected a Running job, the job completed, then its CALL unschedule_job for that attempt arrives
+            if self.last_complete is not None:
+                _, b, j, att, _, inst_name = self.last_complete[:6]
+                saved = w.dj.time_msecs
+                w.dj.time_msecs = lambda: self.ts
+                try:
+                    w.run(self._safe('unschedule(late)', w.dj.unschedule_job(w.app, {'batch_id': b, 'job_id': j, 'attempt_id': att,
+                                                                                    'instance_name': inst_name})))
+                finally:
+                    w.dj.time_msecs = saved
 
     def quiesce(self, max_rounds=40) -> int:
         """fair completion: every loop runs, every Running job finishes successfully; until nothing changes"""
@@ -161,6 +188,17 @@ def safety(v: View) -> Optional[Tuple[str, str]]:
                 return ('running-job-whose-current-attempt-ended', f'job {k} is {j["state"]} but its current attempt {j["attempt_id"]} has end_time '
                                                                    f'{a["end_time"]} / instance {a["instance_name"]}')
     return None
+
+
+def transition_safety(p: View, v: View) -> Optional[Tuple[str, str]]:
+    """between two consecutive actor steps: terminal states are absorbing (a finished job never runs again) and a Running job falls back
+    to Ready only when its current attempt was ended (otherwise two attempts of the job are live and both were treated as current)"""
+    from .oracles import abandoned_attempt
+    for k, o in p.jobs.items():
+        j = v.jobs.get(k)
+        if j is not None and o['state'] in TERMINAL and j['state'] != o['state']:
+            return (f'terminal-not-absorbing:{o["state"]}->{j["state"]}', f'job {k} was {o["state"]} (terminal) and is now {j["state"]}')
+    return abandoned_attempt(p, v)
 
 
 def liveness(v: View, ran: Dict[Tuple[int, int], bool]) -> Optional[Tuple[str, str]]:
